@@ -270,7 +270,9 @@ func (e *Env) Wire(dir string, extraEnv []string, args ...string) *CmdResult {
 	// ... and a cap on the CPU time of the wire process itself (its virtual time, independent of
 	// machine load; explored inputs take well under a tenth of it) does the same for loops no
 	// hook sits in. The wall-clock watchdog stays a separate, inconclusive matter.
-	sh := fmt.Sprintf("ulimit -t %d; exec \"$0\" \"$@\"", wireCPUCapSeconds)
+	// (and 16 GB of address space: a planner that recurses without end dies of "out of memory"
+	// in its own process instead of taking the machine with it)
+	sh := fmt.Sprintf("ulimit -t %d; ulimit -v 16777216; exec \"$0\" \"$@\"", wireCPUCapSeconds)
 	res := e.Run(dir, env, 600*time.Second, "/bin/sh", append([]string{"-c", sh, e.WireBin}, args...)...)
 	if res.Signal == "killed" || res.Signal == "CPU time limit exceeded" || res.Exit == 128+int(syscall.SIGXCPU) || res.Exit == 128+int(syscall.SIGKILL) {
 		if !res.TimedOut {
